@@ -27,7 +27,7 @@ LEVEL_NOTE = ("Trusted: Coq kernel, Go harness + Python glue. Modelled, not veri
               "schedule; the harness issues statements one at a time), prolly-tree diffing (a key-wise comparison in the model), staged/HEAD roots "
               "(only plain COMMIT is modelled, not CALL dolt_commit inside concurrent transactions), schema changes.")
 THEOREMS = ["commit_applies_own", "commit_touches_only_own", "failed_commit_no_trace", "commit_fails_iff_conflict",
-            "final_is_merge", "no_lost_committed_write", "do_commit_refines_spec", "failed_commit_rolls_back"]
+            "final_is_merge", "no_lost_committed_write", "do_commit_refines_spec", "failed_commit_rolls_back", "oracle_accepts_model"]
 RULE = ("schedules of 8-30 statements over 2-4 sessions (some with autocommit on) on t(pk,a,b), keys 1-4, values 0-2/NULL; statement mix BEGIN/COMMIT/ROLLBACK/"
         "SELECT/INSERT/UPDATE cell/UPDATE col=col+d/DELETE; every session commits at the end; non-trivial = at least one commit attempt with a non-empty "
         "change set; distinct by schedule content")
